@@ -543,6 +543,12 @@ func oracleC04(r *OpRun) {
 						}
 					}
 					// identical identities can only mean a re-run when they carry a resource version
+					// (with keepFullObjectsInMemory=false an Event context names no object at all)
+					for _, c := range x.Ctxs {
+						if c.Type == "Event" && (c.Obj == nil || c.Obj.RV == 0) {
+							same = false
+						}
+					}
 					if same && strings.Contains(ids[0], "@") {
 						r.e.Viol("C04", "F4", "allowFailure-retried", "queue %q: failed execution #%d of %s (allowFailure) was run again as #%d", q, x.N, x.Hook, next.N)
 					}
